@@ -376,10 +376,36 @@ func C12(r *ev.Report) {
 		pairVals = alpha.Thin(vals, 320) // seam under another property: a lighter pair product, same unary sweeps
 	}
 
+	// unary sweeps also run on the solved members (quotient digits and final subtraction at their boundaries)
+	wit := alpha.ReductionWitnesses(ref.P)
+	vals = alpha.WithWitnesses(vals, ref.P)
+
 	r.Rule("internal/field called directly from the in-module harness: Add/Subtract/Multiply/CMove(0|1)/Equals on all ordered pairs of V_p (canonical- and Montgomery-structured limb products closed under negation and +-1) in the aliasing shapes distinct, e=u, e=v (every pair) and u=v, e=u=v (diagonal); Negate/Square/Set/Invert (aliased and not), IsZero/Sgn0/Bytes on all of V_p; SqrtRatio on V_p x a 48-value slice; FromBytesWithReduce on limb-product strings and the window around p; HashToFieldElement on the 6-limb product of 48-byte strings and around multiples of p; non-trivial = both operands >= 2^64")
 	r.Bound("values", len(vals))
 	r.Bound("pair_values", len(pairVals))
+	r.Bound("solved_quotient_pairs", len(wit.Pairs))
+	r.Bound("solved_from_montgomery", len(wit.FromMont))
+	r.Bound("solved_to_montgomery", len(wit.ToMont))
+	r.Bound("solved_to_montgomery_final_subtraction", wit.ToMontSubtract)
 	r.States.Add(int64(len(vals)))
+
+	r.ParFor(len(wit.Pairs), func(_, i int) {
+		a := alpha.Val{V: wit.Pairs[i][0], Raw: ref.Mont(wit.Pairs[i][0], ref.P)}
+		b := alpha.Val{V: wit.Pairs[i][1], Raw: ref.Mont(wit.Pairs[i][1], ref.P)}
+
+		for opi := range c12Bin {
+			for _, shape := range c12Shapes[:3] {
+				for _, ab := range [][2]alpha.Val{{a, b}, {b, a}} {
+					r.Transitions.Add(1)
+					r.Evals.Add(1)
+
+					if key, detail := c12BinCase(opi, ab[0], ab[1], shape); key != "" {
+						r.Violation(key, detail, Case{"op": "bin", "opi": fmt.Sprint(opi), "a": hx(ab[0].V), "b": hx(ab[1].V), "shape": shape})
+					}
+				}
+			}
+		}
+	})
 
 	r.ParFor(len(pairVals), func(_, i int) {
 		a := pairVals[i]
@@ -497,6 +523,8 @@ func C12(r *ev.Report) {
 	}
 
 	strs = append(strs, new(big.Int).Sub(ref.Two256(), big.NewInt(1)), big.NewInt(0))
+	strs = append(strs, wit.ToMont...)
+	strs = append(strs, wit.FromMont...)
 	r.Bound("parse_strings", len(strs))
 
 	r.ParFor(len(strs), func(_, i int) {
